@@ -313,8 +313,11 @@ def _replay_c04(o, restricted, nchol):
             Lh = np.array([F.one_body_both(L[g].astype(complex), I[:, k].astype(complex)) for k in range(F.dim)]).T - lg[g] * I
             Hrec = Hrec + 0.5 * Lh @ Lh
         dev = float(np.abs(Hrec - Hm).max())
-        o["replayed"] = bool(dev > 1e-6)
-        o["witness"] = dict(o.get("witness") or {}, native=dict(check="-h0_prop + sum h1_mod a+a + 1/2 sum (L_g - l_g)^2 == H on the Fock space (norb 2, (1,1))", max_deviation=dev, nchol=nchol))
+        # second native witness: one real propagate() step against the importance-sampling formula of the statement
+        dev2, rec2 = native.phaseless_weight_deviation(restricted)
+        o["replayed"] = bool(dev > 1e-6 or dev2 > 1e-9)
+        o["witness"] = dict(o.get("witness") or {}, native=dict(check="-h0_prop + sum h1_mod a+a + 1/2 sum (L_g - l_g)^2 == H on the Fock space (norb 2, (1,1))", max_deviation=dev, nchol=nchol),
+                            native_step=dict(check="weights after one real propagate() step == w |I| max(0, cos theta) with I, theta written out from the statement", **rec2))
     except Exception as e:   # noqa
         o["witness"] = dict(o.get("witness") or {}, native_error=repr(e)[:300])
 
